@@ -5,7 +5,7 @@ from .common import declare
 RULES = ['TIMEDELTA-TOTAL', 'SWAP-ATOMIC', 'FLUSH-RESETS', 'ARM-CANCEL', 'APPEND-THEN-TEST', 'ARM-ON-FIRST', 'SERIAL-DRAIN', 'FIFO-END', 'EMIT-SIG',
          'SINGLE-CONSUMER', 'TICK-PERIOD', 'ELEMENT-MEMBERSHIP']
 FLOORS = {'SWAP-ATOMIC': 6, 'ARM-CANCEL': 1, 'APPEND-THEN-TEST': 1, 'ARM-ON-FIRST': 1, 'SERIAL-DRAIN': 2, 'FIFO-END': 5,
-          'EMIT-SIG': 5, 'SINGLE-CONSUMER': 2, 'TICK-PERIOD': 4}
+          'EMIT-SIG': 5, 'SINGLE-CONSUMER': 1, 'TICK-PERIOD': 3}
 NODES = ('timed_window', 'timed_window_unique', 'partition')
 
 META = {
